@@ -37,14 +37,20 @@ func TestFlowTry(t *testing.T) {
 }
 
 func BenchmarkFlowCheck(b *testing.B) {
-	src, _ := os.ReadFile("/var/tmp/c02try/a.wuffs")
+	src, err := os.ReadFile(os.Getenv("C02_TRY"))
+	if err != nil {
+		b.Skip("C02_TRY not set")
+	}
 	for i := 0; i < b.N; i++ {
 		flowCheck(nil, string(src))
 	}
 }
 
 func BenchmarkFlowCheckBase(b *testing.B) {
-	src, _ := os.ReadFile("/var/tmp/c02try/a.wuffs")
+	src, err := os.ReadFile(os.Getenv("C02_TRY"))
+	if err != nil {
+		b.Skip("C02_TRY not set")
+	}
 	fr := newFlowFront()
 	for i := 0; i < b.N; i++ {
 		if _, err := fr.check(string(src)); err != nil {
